@@ -96,8 +96,6 @@ def dispatch(ctx: Ctx) -> None:
     p = ctx.p
     fi = p.func(DETECT)
     sp = fi.param_names()[0]
-    simfile_ext = tuple(p.const("simfile._private.extensions", "SIMFILE"))
-    ctx.expect("R-TABLE", ("simfile._private.extensions", ""), "extensions.SIMFILE == (.ssc, .sm)", set(simfile_ext) == {".ssc", ".sm"}, str(simfile_ext), str(simfile_ext))
     found: Dict[str, Any] = {}
     for r in [n for n in body_walk(fi.node) if isinstance(n, ast.Return)]:
         fs = facts(ctx, fi, r)
@@ -109,7 +107,6 @@ def dispatch(ctx: Ctx) -> None:
                     found[c] = (flag, atom.left.id, r)
     ctx.expect("R-TABLE", fi, "suffix dispatch table == {ssc: SSC, sm: SM}", {k: v[0] for k, v in found.items()} == {"ssc": True, "sm": False},
                str({k: v[0] for k, v in found.items()}), f"suffix dispatch is {({k: v[0] for k, v in found.items()})}; documented: .ssc -> SSC, .sm -> SM", node=fi.node)
-    ctx.expect("R-TABLE", fi, "suffix literals agree with extensions.SIMFILE", {"." + k for k in found} == set(simfile_ext), "", f"{sorted(found)} vs {simfile_ext}", node=fi.node)
     for k, (flag, var, r) in found.items():
         e = inline(ast.Name(id=var, ctx=ast.Load()), fi)
         bs = locals_of(fi).b.get(var, [])
